@@ -184,7 +184,7 @@ def cube(d, collide, steps, prefix, third=False, same=False, built=False):
 COLLIDE = ["ref", "remote", "relative", "format", "format-str", "pattern"]
 
 
-QUICK = {7: ["ref", "remote", "format-str"], 4: ["relative", "pattern", "format"]}
+QUICK = {7: ["ref", "format-str"], 4: ["relative", "pattern"]}
 
 
 def conditions(tier, seed, active):
@@ -199,9 +199,7 @@ def conditions(tier, seed, active):
                 out.append(dict(id="two/%s/d%d/steps%d/prefix%s" % (col, d, steps, "".join(map(str, prefix))), module=__name__, factory="cube",
                                 params=dict(d=d, collide=col, steps=steps, prefix=list(prefix)), timeout=1500 if quick else 3600,
                                 tags=["errors"], witness=["errors"] if prefix == (0, 1) and d == 7 else []))
-        for col in (("ref",) if quick else ("ref", "remote")):
-            if quick and d != 7:
-                continue
+        for col in (() if quick else ("ref", "remote")):
             for prefix in itertools.product((0, 1), repeat=2):
                 out.append(dict(id="same-instance/%s/d%d/steps%d/prefix%s" % (col, d, steps, "".join(map(str, prefix))), module=__name__, factory="cube",
                                 params=dict(d=d, collide=col, steps=steps, prefix=list(prefix), same=True), timeout=1500 if quick else 3600,
@@ -213,7 +211,7 @@ def conditions(tier, seed, active):
                                 tags=["errors"], witness=[]))
         if d == 7 or not quick:
             for p0 in range(3):
-                for p1 in range(3):
+                for p1 in (range(1) if quick else range(3)):
                     out.append(dict(id="three/ref/d%d/steps3/first%d%d" % (d, p0, p1), module=__name__, factory="cube",
                                     params=dict(d=d, collide="ref", steps=3, prefix=[p0, p1], third=True), timeout=1500 if quick else 3600,
                                     tags=["errors"], witness=[]))
